@@ -30,7 +30,7 @@ const (
 	ChainID  = "verif-1"
 	FeeDenom = "umed"
 	// BondDenom is the SDK default used by the default staking/mint genesis.
-	BondDenom = "stake"
+	BondDenom  = "stake"
 	ThirdDenom = "uthird"
 )
 
@@ -71,10 +71,13 @@ type Chain struct {
 	Home     string
 	Accounts []Account
 
-	Height int64     // last committed height
-	Time   time.Time // time of last committed block (or genesis time)
-	Hdr    tmproto.Header
+	Height  int64     // last committed height
+	Time    time.Time // time of last committed block (or genesis time)
+	Hdr     tmproto.Header
 	InBlock bool
+
+	// Previous selects the emulated previous release when the app is (re)constructed.
+	Previous bool
 
 	ValPriv   ed25519.PrivKey
 	valAddr   []byte
@@ -96,13 +99,29 @@ var appBuildMu sync.Mutex
 
 // NewApp constructs the real application (loadLatest=false, then LoadLatestVersion so
 // that a load failure is an error rather than os.Exit).
-func NewApp(db dbm.DB, home string) (*app.App, error) {
+func NewApp(db dbm.DB, home string) (*app.App, error) { return NewAppBinary(db, home, false) }
+
+// NewAppBinary constructs the application; with previous=true it emulates the previous
+// release: the same code with the newest upgrade descriptor (and hence its handler) absent.
+func NewAppBinary(db dbm.DB, home string, previous bool) (*app.App, error) {
 	Setup()
 	if home == "" {
 		home = defaultHome()
 	}
 	opts := sims.AppOptionsMap{flags.FlagHome: home}
-	a := app.New(log.NewNopLogger(), db, nil, false, opts, baseapp.SetChainID(ChainID))
+	appBuildMu.Lock()
+	saved := app.Upgrades
+	if previous {
+		app.Upgrades = saved[:len(saved)-1]
+	}
+	var a *app.App
+	func() {
+		defer func() {
+			app.Upgrades = saved
+			appBuildMu.Unlock()
+		}()
+		a = app.New(log.NewNopLogger(), db, nil, false, opts, baseapp.SetChainID(ChainID))
+	}()
 	if err := a.LoadLatestVersion(); err != nil {
 		return nil, err
 	}
@@ -141,6 +160,8 @@ func DefaultAccounts(n int) []Account {
 type GenesisOptions struct {
 	Accounts []Account
 	Balance  sdk.Coins // per account
+	// Previous builds the chain on the emulated previous release.
+	Previous bool
 	// Mutate may edit the module genesis map (e.g. to inject custom-module state).
 	Mutate func(cdcJSON func(interface{}) []byte, gs map[string]json.RawMessage)
 }
@@ -156,11 +177,11 @@ func DefaultBalance() sdk.Coins {
 
 // NewChain builds an app on db and initialises it from a generated genesis.
 func NewChain(db dbm.DB, home string, gopts GenesisOptions) (*Chain, error) {
-	a, err := NewApp(db, home)
+	a, err := NewAppBinary(db, home, gopts.Previous)
 	if err != nil {
 		return nil, err
 	}
-	c := &Chain{App: a, DB: db, Home: home, Accounts: gopts.Accounts, AppHashes: map[int64][]byte{}}
+	c := &Chain{App: a, DB: db, Home: home, Accounts: gopts.Accounts, AppHashes: map[int64][]byte{}, Previous: gopts.Previous}
 	c.ValPriv = ed25519.GenPrivKeyFromSecret([]byte("verif-validator"))
 	gs, err := c.buildGenesis(gopts)
 	if err != nil {
@@ -250,7 +271,7 @@ func (c *Chain) InitChain(appState []byte) (err error) {
 // Reopen abandons the running instance (uncommitted work is lost) and constructs a new
 // application over the same database, as a restarted node would.
 func (c *Chain) Reopen() error {
-	a, err := NewApp(c.DB, c.Home)
+	a, err := NewAppBinary(c.DB, c.Home, c.Previous)
 	if err != nil {
 		return err
 	}
